@@ -462,3 +462,32 @@ fn c05_logloss_empty_is_error() {
 // ROC construction (`roc`): not decided.  Even n = 2 with CONCRETE scores (1/4, 3/4 resp. 0, 3/4) and one symbolic
 // label did not finish in 400 s (std `sort_unstable_by` on the Vec produced by `filter_map`); nothing on that
 // path is loop-free apart from `get_curve` / `area_under_curve`, which are covered above.
+
+
+// ------------------------------------------------------------------------------------------------
+// Witnesses of the KNOWN FINDINGS on precision()/recall() (known_findings.json): they pin down the exact wrong value the
+// pinned tree returns.  A textbook unit above that fails is accepted as "the known finding" only while its witness
+// below still discharges; any OTHER deviation from the textbook makes the witness fail and is reported as a new violation.
+// @unit class=bounded tier=quick role=witness bound="2x2,cells 0..15" fns=linfa::metrics_classification::ConfusionMatrix::precision
+#[kani::proof]
+#[kani::unwind(6)]
+#[kani::stub(alloc::fmt::format, fmt_stub)]
+fn c05_cm2_precision_known_form() {
+    let c = cells::<2>(15);
+    let cm = cm_of(&c);
+    let (tp, fnn) = (c[0][0] as f32, c[1][0] as f32);
+    assert!(feq(cm.precision(), tp / (tp + fnn)));          // the value of the known finding: TP/(TP+FN)
+    kani::cover!(c[0][1] != c[1][0] && c[0][0] > 0);
+}
+
+// @unit class=bounded tier=quick role=witness bound="2x2,cells 0..15" fns=linfa::metrics_classification::ConfusionMatrix::recall
+#[kani::proof]
+#[kani::unwind(6)]
+#[kani::stub(alloc::fmt::format, fmt_stub)]
+fn c05_cm2_recall_known_form() {
+    let c = cells::<2>(15);
+    let cm = cm_of(&c);
+    let (tp, fp) = (c[0][0] as f32, c[0][1] as f32);
+    assert!(feq(cm.recall(), tp / (tp + fp)));              // the value of the known finding: TP/(TP+FP)
+    kani::cover!(c[0][1] != c[1][0] && c[0][0] > 0);
+}
